@@ -225,6 +225,11 @@ def _norm_block(stmts: List[ast.stmt]) -> List[ast.stmt]:
                 stmts = stmts[:i + 1]
             if s.orelse and isinstance(s.test, ast.UnaryOp) and isinstance(s.test.op, ast.Not):
                 s.test, s.body, s.orelse = s.test.operand, s.orelse, s.body
+            elif s.orelse and isinstance(s.test, ast.Compare) and len(s.test.ops) == 1 and isinstance(s.test.ops[0], (ast.NotEq, ast.IsNot, ast.NotIn)):
+                # `if a != b: X else: Y` is `if a == b: Y else: X` (two-branch statements are written on the positive comparison)
+                pos = {ast.NotEq: ast.Eq, ast.IsNot: ast.Is, ast.NotIn: ast.In}[type(s.test.ops[0])]()
+                s.test = ast.copy_location(ast.Compare(left=s.test.left, ops=[pos], comparators=s.test.comparators), s.test)
+                s.body, s.orelse = s.orelse, s.body
             flag = _bool_flag(s)
             out.append(flag if flag is not None else s)
         elif isinstance(s, (ast.For, ast.While)):
